@@ -149,6 +149,21 @@ def _unknown_bad(ctx, trace, bad, lines=None):
     return out
 
 
+def _alphabets(ctx, drv):
+    """(names the driver has, names the generator's table has).  The table (spec/CtxLifecycleTable.tla, harness/drivers/c09) is
+    shared with C09 and grows; the driver's table is an adapted copy: X06 runs the cases both sides know and reports the rest."""
+    have = set(lib.run_driver(drv, ["-list"], timeout=60).split())
+    with open(os.path.join(lib.ROOT, "spec", "CtxLifecycleTable.tla")) as f:
+        table = set(re.findall(r'^\s*"([^"]+)" :> \[kinds', f.read(), re.M))
+    if not have or not table:
+        raise lib.Infra("empty mutator alphabet: driver %d, table %d" % (len(have), len(table)))
+    return have, table
+
+
+def _names(case):
+    return list(case.get("pre", [])) + [st["m"] for st in case.get("steps", [])]
+
+
 def _case_of(rec):
     c = dict(rec)
     c.pop("ev", None)
@@ -159,6 +174,9 @@ def rerun(ctx, case_lines):
     """Run ONE case alone on the real code and validate it; True = a line that is not a known finding is rejected again."""
     c = _case_of(json.loads(case_lines[0]))
     line = json.dumps(c, separators=(",", ":"))
+    missing = sorted(set(_names(c)) - _alphabets(ctx, lib.go_build("x06"))[0])
+    if missing:
+        raise lib.Infra("the recorded case names mutator(s) %s which this driver does not have: not applicable" % ", ".join(missing))
     d = ctx.sub("rerun")
     if c["kind"] in ("bg", "keys"):
         tf = os.path.join(d, "trace_conc.ndjson")
@@ -239,12 +257,34 @@ def run(ctx):
     cases, n = lib.gen_cases(ctx, "CtxCopyGen", "CtxCopyGen_quick.cfg" if q else "CtxCopyGen_thorough.cfg", out_name="cases.ndjson", timeout=1500)
     seq_f = os.path.join(ctx.scratch, "cases_seq.ndjson")
     conc = []
+    have, table = _alphabets(ctx, drv)
+    not_applicable = collections.Counter()                   # mutator the driver lacks -> cases dropped because of it
+    n_generated, n_skipped = n, 0
+    used = set()                                             # mutators named by the cases that run
     with open(cases) as f, open(seq_f, "w") as fs:
         for line in f:
-            if any(k in line for k in CONC):
+            names = set(_names(json.loads(line)))
+            missing = names - have
+            used |= names - missing
+            if missing:
+                n_skipped += 1
+                for m in missing:
+                    if not not_applicable[m]:
+                        lib.log("mutator %r is in the generator's table but not in the driver's: cases naming it are not applicable" % m)
+                    not_applicable[m] += 1
+            elif any(k in line for k in CONC):
                 conc.append(line)
             else:
                 fs.write(line)
+    n -= n_skipped
+    driver_only = sorted(have - table)
+    if driver_only:
+        lib.log("%d mutator(s) only the driver has (never generated): %s" % (len(driver_only), ", ".join(driver_only[:8])))
+    if n_skipped:
+        lib.log("%d of %d generated cases not applicable (%d mutator name(s) unknown to the driver)" % (n_skipped, n_generated, len(not_applicable)))
+    if n_skipped * 20 > n_generated:
+        raise lib.Infra("%d of %d cases name mutators the driver does not have (%s): the alphabets have drifted too far apart for a check"
+                        % (n_skipped, n_generated, ", ".join(sorted(not_applicable)[:8])))
 
     # 3. run on the real code: sequential cases with the plain build (one locked OS thread per worker, so that the pooled
     #    object is normally the one handed back); every concurrent case in its own process under the race detector
@@ -398,13 +438,15 @@ def run(ctx):
         "final_probes_of_a_copy": nprobe_end, "recycle_events": nrecycle, "recycle_events_on_the_original_object": nsame,
         "keys_reads": kget, "keys_reads_overlapping_a_write": kget_conc, "keys_snapshots": ksnap, "background_probes": bgprobe,
         "driver_stats": stats, "race_detector_reports": nraces,
+        "cases_generated": n_generated, "cases_not_applicable": n_skipped, "mutators_exercised": len(used),
+        "mutators_unknown_to_driver": dict(not_applicable), "mutators_only_in_driver": driver_only,
         "rule": "TLC enumerates cases from the context alphabet of C09 (%d mutators): every lifecycle state at Copy time x request shape x "
                 "recycling mode x ending x lazy getters before/after; every mutator before Copy; every mutator after Copy on the original / on the "
                 "copy, inside the first handler / inside the handler served with the recycled original; ordered pairs (%s) and seeded triples; "
                 "server-less contexts; copies handed to goroutines and concurrent use of the key/value store under the race detector. Each case "
                 "runs on the real code, every recorded line is validated by TLC. distinct_nontrivial = distinct cases whose final look at the "
                 "copy happened after a sentinel request had really been served with the very object the copy was taken from." %
-                (stats.get("mutators", 0) - 2, "1/50 seeded sample" if q else "1/2 seeded sample"),
+                (len(used), "1/50 seeded sample" if q else "1/2 seeded sample"),
     })
     ctx.assumptions += [
         "the observable state is what harness/drivers/x06/dump.go (the C09 probe set) reads through exported getters/fields; Date, addresses, "
